@@ -12,7 +12,10 @@ for ID in $IDS; do
   git -C /repo worktree remove --force $WT >/dev/null 2>&1
   git -C /repo worktree add -q --detach $WT HEAD || { echo "$ID: cannot create worktree"; BAD=1; continue; }
   cp /repo/htp/htp_version.h $WT/htp/ 2>/dev/null; cp /repo/htp_config_auto_gen.h $WT/ 2>/dev/null
-  if ! git -C $WT apply /verif/seeded/$ID/patch.diff 2>/dev/null; then echo "$ID: patch no longer applies to HEAD (skipped)"; git -C /repo worktree remove --force $WT; continue; fi
+  # (later fix: commits may have moved the context of a change: fall back to a fuzzy apply)
+  if ! git -C $WT apply /verif/seeded/$ID/patch.diff 2>/dev/null; then
+    if ! ( cd $WT && patch -p1 -F 3 -s --no-backup-if-mismatch < /verif/seeded/$ID/patch.diff >/dev/null 2>&1 ); then echo "$ID: patch no longer applies to HEAD (skipped)"; git -C /repo worktree remove --force $WT; continue; fi
+  fi
   LOG=$(mktemp)
   VERIF_REPO=$WT VERIF_BUDGET_S=${MUT_BUDGET:-45} VERIF_WORKERS=${MUT_WORKERS:-14} ./check $P --tier quick > $LOG 2>&1; RC=$?
   ORACLE=$(grep -m1 "oracle=" $LOG | sed 's/.*oracle=\([^ ]*\).*/\1/'); IDX=$(grep -m1 "run_index=" $LOG | sed 's/.*run_index=\([-0-9]*\).*/\1/')
